@@ -20,6 +20,8 @@ type C05Case struct {
 	// (>= 0; clamped to what is left; -1 = to exhaustion, then Done and the failing Next are checked)
 	// followed by what is done next: "reset", "reverse", "forward" or "" (nothing).
 	Prog []C05Seg `json:"prog,omitempty"`
+	// Stepper: "" Next | "valid" NextValid | "validity" NextValidity
+	Stepper string `json:"stepper,omitempty"`
 }
 
 type C05Seg struct {
@@ -51,7 +53,7 @@ func (c *C05Case) NTKey() string {
 	if !layoutNT(c.L, c.Shape) {
 		return ""
 	}
-	return fmt.Sprintf("%v|%v|%s|%s|%d|%v", c.Shape, c.L, c.Via, c.Walk, c.K, c.Prog)
+	return fmt.Sprintf("%v|%v|%s|%s|%d|%v|%s", c.Shape, c.L, c.Via, c.Walk, c.K, c.Prog, c.Stepper)
 }
 
 // expectOffsets computes, from the harness's own bookkeeping, the storage offset
@@ -74,7 +76,10 @@ func expectOffsets(b *Built) []int {
 }
 
 type walker struct {
-	it     tensor.Iterator
+	// stepper: which method advances the walk: "" Next, "valid" NextValid, "validity" NextValidity (on an
+	// unmasked tensor every position is valid and the three visit the same offsets)
+	stepper string
+	it      tensor.Iterator
 	arr    Arr
 	window []interface{}
 	offs   []int // may be nil
@@ -106,7 +111,24 @@ func (w *walker) segment(reverse bool, from, to int, end bool) string {
 		}
 		var o int
 		var err error
-		if p := try(func() { o, err = w.it.Next() }); p != "" {
+		if p := try(func() {
+			switch w.stepper {
+			case "valid":
+				var skip int
+				o, skip, err = w.it.NextValid()
+				if err == nil && ((reverse && skip != -1) || (!reverse && skip != 1)) && n > 1 {
+					err = fmt.Errorf("NextValid on an unmasked tensor reports skip %d (reverse=%v)", skip, reverse)
+				}
+			case "validity":
+				var valid bool
+				o, valid, err = w.it.NextValidity()
+				if err == nil && !valid {
+					err = fmt.Errorf("NextValidity on an unmasked tensor reports an invalid position")
+				}
+			default:
+				o, err = w.it.Next()
+			}
+		}); p != "" {
 			return fmt.Sprintf("%s: Next panicked at step %d: %s", w.desc, k, p)
 		}
 		if err != nil {
@@ -169,7 +191,7 @@ func (c *C05Case) Run() string {
 	case "newiter":
 		it = tensor.NewIterator(t.Info())
 	}
-	w := &walker{it: it, arr: arr, window: backingVals(t.Data()), offs: expectOffsets(b), coords: coordsOf(c.Shape),
+	w := &walker{stepper: c.Stepper, it: it, arr: arr, window: backingVals(t.Data()), offs: expectOffsets(b), coords: coordsOf(c.Shape),
 		desc: fmt.Sprintf("%s iterator over shape %v layout %v (strides %v)", c.Via, c.Shape, c.L, t.Strides())}
 	if len(c.Shape) == 0 {
 		w.window = []interface{}{t.ScalarValue()}
@@ -238,6 +260,33 @@ func (c *C05Case) Run() string {
 				case "forward":
 					it.SetForward()
 					reverse, pos = false, 0
+				case "start":
+					// Start() rewinds and yields the first element of the current direction
+					if n > 0 {
+						var o int
+						var serr error
+						if p := try(func() {
+							switch x := it.(type) {
+							case *tensor.FlatIterator:
+								o, serr = x.Start()
+							default:
+								it.Reset()
+								o, serr = it.Next()
+							}
+						}); p != "" || serr != nil {
+							msg = fmt.Sprintf("%s: segment %d of %v: Start() failed: %v %v", w.desc, si, c.Prog, p, serr)
+							return
+						}
+						lk := 0
+						if reverse {
+							lk = n - 1
+						}
+						if o < 0 || o >= len(w.window) || !bitEqVal(w.window[o], w.arr.E[lk]) {
+							msg = fmt.Sprintf("%s: segment %d of %v: Start() yields offset %d, not the first element of the walk (reverse=%v)", w.desc, si, c.Prog, o, reverse)
+							return
+						}
+						pos = 1
+					}
 				}
 			}
 			msg = w.segment(reverse, pos, n, true)
@@ -524,9 +573,10 @@ func TestC05(t *testing.T) {
 			cell(t, "C05", "C05.flat", lk+"/"+walk, nCases(40, 1500), func(rt *rapid.T) Case {
 				shape := genC05Shape(rt)
 				c := &C05Case{Shape: shape, L: genLayoutKind(rt, lk, len(shape), "l"), Via: rapid.SampledFrom([]string{"flat", "iterator", "newiter"}).Draw(rt, "via"), Walk: walk, K: rapid.IntRange(0, prod(shape)).Draw(rt, "k")}
+				c.Stepper = rapid.SampledFrom([]string{"", "", "valid", "validity"}).Draw(rt, "stepper")
 				if walk == "prog" {
 					for i, ns := 0, rapid.IntRange(1, 4).Draw(rt, "nseg"); i < ns; i++ {
-						sg := C05Seg{N: rapid.IntRange(-1, prod(shape)+1).Draw(rt, "n"), Then: rapid.SampledFrom([]string{"reset", "reverse", "forward", "reverse", "forward", ""}).Draw(rt, "then")}
+						sg := C05Seg{N: rapid.IntRange(-1, prod(shape)+1).Draw(rt, "n"), Then: rapid.SampledFrom([]string{"reset", "reverse", "forward", "reverse", "forward", "", "start"}).Draw(rt, "then")}
 						if rapid.IntRange(0, 2).Draw(rt, "exhaust") == 0 {
 							sg.N = -1
 						}
